@@ -12,14 +12,17 @@ Patterns == { << <<"M", 40>>, <<"M", 60>> >>,
               << <<"M", 50>>, <<"S", 25>>, <<"M", 50>> >>,
               << <<"M", 200>>, <<"S", 30>>, <<"M", 300>> >>,
               << <<"M", 150>>, <<"M", 100>>, <<"S", 30>>, <<"M", 200>> >>,
-              << <<"M", 200>>, <<"S", 25>>, <<"M", 350>>, <<"S", 40>>, <<"M", 200>> >> }
+              << <<"M", 200>>, <<"S", 25>>, <<"M", 350>>, <<"S", 40>>, <<"M", 200>> >>,
+              << <<"J", 60>>, <<"M", 150>>, <<"S", 30>>, <<"M", 150>> >>,          \* junction at the west end
+              << <<"J", 40>>, <<"M", 200>>, <<"J", 40>> >> }                        \* junctions at both ends
+HasJ == \E i \in 1..Len(stages) : stages[i][1] = "J"
 Gaps == {0, 240, 1500}          \* tie, below the 8 min headway, well above it
 Cars == {20, 80}
 
 Init == stages \in Patterns /\ lockouts \in BOOLEAN /\ trains = <<>>
 AddTrain == /\ Len(trains) < MaxTrains
-            /\ \E d \in {"E", "W"}, g \in Gaps, c \in Cars :
-                 trains' = Append(trains, [dir |-> d, ncars |-> c,
+            /\ \E d \in {"E", "W"}, g \in Gaps, c \in Cars, b \in (IF HasJ THEN {0, 1} ELSE {0}) :
+                 trains' = Append(trains, [dir |-> d, ncars |-> c, bo |-> b, bd |-> b,
                                            depart |-> (IF trains = <<>> THEN 120 ELSE trains[Len(trains)].depart) + g])
             /\ UNCHANGED <<stages, lockouts>>
 Spec == Init /\ [][AddTrain]_<<stages, lockouts, trains>>
